@@ -8,6 +8,7 @@ from ..core import bashlex as B
 from ..core import cfg as CFG
 from ..core import match as M
 from ..core.model import dotted
+from ..core import generic as G
 
 META = {
     "technique": "request/reply table extraction on both sides and agreement (each Python request has a bash arm whose reply literal is the one Python expects; each daemon-initiated message has a Python handler), reply-count path analysis over the structured bash arms (every non-exiting path of an arm writes exactly as many reply lines as Python reads for that request), default-arm rule (unknown command ends the session on both sides), CFG must-pass rules on the Python side (the async-expectation queue is cleared on every path that consumed its replies; a handler that abandons a pending daemon request kills the daemon first; every successful inherit answer is exactly two lines)",
@@ -15,6 +16,8 @@ META = {
     "note": "",
 }
 META["technique"] += "; " + 'bash exit-status analysis: functions ending in `[[ ]] && action` used as conditions'
+META["technique"] += "; request/terminator agreement between the bash readers (`while [[ ${line} != \"<end>\" ]]`) and the registered python handlers (must-pass-through on the handler's flow graph)"
+META["level"] += " (R8) for every bash function that sends request_X and then reads lines until a terminator word, the python handler registered for request_X writes that word on every normal way out."
 META["level"] += " Added after the second round of independent changes: " + '(R6) no bash reader whose status is 1-on-success is used as a loop or branch condition.'
 META["technique"] += "; " + 'generic pack G on the anchored files (optional-flag shift, closures outliving a loop iteration, single-pass iterables consumed twice, %-templates built from data, in-place writes to class-level / memoised objects, generators mutating what they yielded, memo keys that are projections)'
 PROC = "pkgcore.ebuild.processor"
@@ -376,6 +379,49 @@ def run(ctx):
               "unread in the pipe is taken as the reply to the next, unrelated request")
     ctx.floor("R7", 3)
 
+    # ---- R8 a request the daemon reads until a terminator line always gets that terminator -------------------------------
+    # bash side: `__ebd_write_line "request_X ..."` followed by `while [[ ${line} != "<end>" ]]; do ... __ebd_read_line line; done`;
+    # python side: the handler registered for request_X writes "<end>" on every way out that returns normally.
+    import re as _re
+    gh = P.func("pkgcore.ebuild.processor", "EbuildProcessor.generic_handler")
+    handler_of = {}  # request word -> (module, function qualname)
+    for modname in ("pkgcore.ebuild.processor", "pkgcore.ebuild.ebd"):
+        m_ = P.module(modname)
+
+        def _reg(word, expr, m_=m_, modname=modname):
+            nm = A.unparse(expr).split(".")[-1]
+            cands = [f for f in m_.funcs.values() if f.name == nm and ".<locals>." not in f.qual]
+            if cands:
+                handler_of.setdefault(word, (modname, cands[0].qual))
+        for f_ in m_.funcs.values():
+            for d in ast.walk(f_.node):
+                if isinstance(d, ast.Dict):
+                    for k_, v_ in zip(d.keys, d.values):
+                        if isinstance(k_, ast.Constant) and isinstance(k_.value, str) and k_.value.startswith("request_"):
+                            _reg(k_.value, v_)
+                elif isinstance(d, ast.Call) and A.call_attr(d) == "setdefault" and len(d.args) == 2 and isinstance(d.args[0], ast.Constant) \
+                        and isinstance(d.args[0].value, str) and d.args[0].value.startswith("request_"):
+                    _reg(d.args[0].value, d.args[1])
+                elif isinstance(d, ast.Assign) and isinstance(d.targets[0], ast.Subscript) and isinstance(d.targets[0].slice, ast.Constant) \
+                        and isinstance(d.targets[0].slice.value, str) and d.targets[0].slice.value.startswith("request_"):
+                    _reg(d.targets[0].slice.value, d.value)
+    n8 = 0
+    for fname, fn in lf.items():
+        req = _re.search(r'__ebd_write_line\s+"(request_\w+)', fn.body)
+        term = _re.search(r'while\s+\[\[\s+\$\{?(\w+)\}?\s+!=\s+"?(\w+)"?\s+\]\]', fn.body)
+        if not (req and term) or "__ebd_read_line" not in fn.body:
+            continue
+        rname, endword = req.group(1), term.group(2)
+        hq = handler_of.get(rname)
+        if not ctx.check("R8", gh, hq is not None, f"terminated-request-handled:{rname}", f"generic_handler registers a handler for {rname}",
+                         f"{fname} (bash) sends {rname} and reads until `{endword}`, but neither processor.py nor ebd.py registers a handler for it"):
+            continue
+        n8 += 1
+        G.always_reaches(ctx, "R8", hq[0], hq[1],
+                         lambda c, w=endword: A.call_attr(c) == "write" and c.args and A.is_const(c.args[0], w),
+                         f"the write of the `{endword}` line that {fname} (bash) reads until", f"terminator-always-sent:{endword}")
+    ctx.floor("R8", 2)
+
 
 FP = "src/pkgcore/ebuild/processor.py"
 MUTANTS = [
@@ -392,4 +438,14 @@ MUTANTS = [
 ]
 TWINS = [
     {"name": "queue-cleared-with-clear", "file": FP, "old": "        self._outstanding_expects = []\n        return ret", "new": "        self._outstanding_expects.clear()\n        return ret"},
+]
+
+
+MUTANTS += [
+    {"name": "sandbox-summary-early-return-without-terminator", "file": "src/pkgcore/ebuild/processor.py",
+     "old": '        if not violations:\n            self.write("end_sandbox_summary")\n            return 0\n', "new": '        if not violations:\n            return 0\n', "rule": "R8"},
+]
+TWINS += [
+    {"name": "sandbox-summary-early-return-value-respelled", "file": "src/pkgcore/ebuild/processor.py",
+     "old": '        if not violations:\n            self.write("end_sandbox_summary")\n            return 0\n', "new": '        if not violations:\n            self.write("end_sandbox_summary")\n            return False\n'},
 ]
